@@ -320,6 +320,7 @@ def analyse(args):
         from symx import ratnorm
         bad = None
         budget = float(os.environ.get('VERIF_C01_PROGRAM_BUDGET_S', '300' if os.environ.get('VERIF_TIER') == 'thorough' else '150'))
+        if spec[0] != 'rand': budget = max(budget, 900.0)          # programs of the fixed corpus are claimed: they get a generous budget
         for q, wh in zip(neqs, where):
             if time.time() - t0 > budget:
                 # wall budget per program: the remaining entries stay undecided (never counted as holding)
